@@ -187,7 +187,7 @@ theorem single_reach_top (gf : Facts c K Sup) (sf : SFacts c tk) (m : Nat) (s : 
     dsimp only
     have hs2 : PInv c Sup { s with orc := orcRest } :=
       ⟨sinv_of_store hs.sinv rfl, fun it hit => hs.orc it (by rw [horc]; exact List.mem_cons_of_mem _ hit)⟩
-    have hitem : ItemOK c.g item := hs.orc item (by rw [horc]; exact List.mem_cons_self)
+    have hitem : c.hopCopies = true ∨ ItemOK c.g item := hs.orc item (by rw [horc]; exact List.mem_cons_self)
     split
     · intro e h; cases h; exact nb _
     · split
@@ -212,7 +212,8 @@ theorem single_reach_top (gf : Facts c K Sup) (sf : SFacts c tk) (m : Nat) (s : 
                 obtain ⟨i, hi⟩ := List.mem_iff_getElem?.1 hcp
                 rw [List.getElem?_zip_eq_some] at hi
                 have hcur := hmiss _ (hsame'.1.1 _ (List.of_mem_zip hcp).1)
-                obtain ⟨hg, hlast⟩ := goodP_of_valid cp.1 cp.2 hcur hv (hitem i cp.1 cp.2 hi.1 hi.2 hv)
+                obtain ⟨hg, hlast⟩ := goodP_of_valid cp.1 cp.2 hcur hv
+                  (hitem.imp id (fun h => h i cp.1 cp.2 hi.1 hi.2 hv))
                 refine ⟨hg, ?_⟩
                 obtain ⟨rest, hp, hne, hch, _, _⟩ := hg
                 intro v hv'
@@ -370,7 +371,8 @@ theorem single_core (H : WalkPanic.Hyps e b funcs target) (beh : Nat → Nat →
   intro a h
   have gf := WalkPanic.facts_std H beh True (fun _ => hreqs)
   have sf := sfacts_std H hsi hkey beh
-  exact single_reach_top gf sf m _ ⟨WalkPanic.initSt_sinv H beh memo orc, hitems⟩ _ h ⟨a, rfl⟩
+  exact single_reach_top gf sf m _ ⟨WalkPanic.initSt_sinv H beh memo orc, fun it hit => Or.inr (hitems it hit)⟩ _ h
+    ⟨a, rfl⟩
 
 /-- **clause (a), full label language, legal oracles** — the statement of `C05.complete_single_legal`, true since
 the repair of finding F22 (`C01.stdCtx` has `hopCopies := true`): arbitrary cycles and R6 edges -/
@@ -397,7 +399,8 @@ theorem single_core_legal (H : WalkPanic.Hyps e b funcs target) (beh : Nat → N
   intro a h
   have gf := WalkPanic.facts_std H beh True (fun _ => hreqs)
   have sf := sfacts_std H hsi hkey beh
-  exact single_reach_top gf sf m _ ⟨WalkPanic.initSt_sinv H beh memo orc, hitems⟩ _ h ⟨a, rfl⟩
+  exact single_reach_top gf sf m _ ⟨WalkPanic.initSt_sinv H beh memo orc, fun it hit => Or.inr (hitems it hit)⟩ _ h
+    ⟨a, rfl⟩
 
 end
 
